@@ -14,6 +14,7 @@ import (
 	"math/rand"
 	"os"
 	"os/exec"
+	"sort"
 	"strconv"
 	"strings"
 	"time"
@@ -702,6 +703,10 @@ func effMode(mode string) string {
 	return mode
 }
 
+// cliThreads is the -t of the next `compare trees` (1: rows in file order; 3: any order, the
+// harness presents them by id; the text is compared as header + set of lines)
+var cliThreads = 1
+
 func doCLI(c *core.Ctx, mode string, tips bool, rn *core.N, cns []*core.N) {
 	if !begin(c, "C08.cli", mode, b01(tips), rn.Dump(), core.Dumps(cns)) {
 		return
@@ -715,7 +720,7 @@ func doCLI(c *core.Ctx, mode string, tips bool, rn *core.N, cns []*core.N) {
 	comp := c.TmpFile(b.String())
 	// option handling: the reference comes from a file, or (modes rf / wbinary) from the
 	// standard input, which is the default of -i; --tips by its long or short name
-	args := []string{"compare", "trees", "-c", comp, "-t", "1"}
+	args := []string{"compare", "trees", "-c", comp, "-t", strconv.Itoa(cliThreads)}
 	if mode == "nocompared" {
 		args = []string{"compare", "trees", "-t", "1"}
 	}
@@ -765,6 +770,7 @@ func doCLI(c *core.Ctx, mode string, tips bool, rn *core.N, cns []*core.N) {
 		}
 	}
 	var rows strings.Builder
+	var rowList [][]string
 	lines := strings.Split(strings.TrimRight(res.Stdout, "\n"), "\n")
 	for i, l := range lines {
 		if l == "" {
@@ -792,11 +798,21 @@ func doCLI(c *core.Ctx, mode string, tips bool, rn *core.N, cns []*core.N) {
 			// not a data row (e.g. the error message printed by Execute)
 			continue
 		}
+		rowList = append(rowList, f)
+	}
+	if cliThreads > 1 && mode != "rf" {
+		sort.SliceStable(rowList, func(i, j int) bool {
+			a, e1 := strconv.Atoi(rowList[i][0])
+			b, e2 := strconv.Atoi(rowList[j][0])
+			return e1 == nil && e2 == nil && a < b
+		})
+	}
+	for _, f := range rowList {
 		rows.WriteString(strings.Join(f, ";"))
 		rows.WriteByte('|')
 	}
 	// the text written on the standard output, as it is (tied to the model's cliOutput)
-	emit(c, "C08.cli", fullMode, b01(tips), rn.Dump(), core.Dumps(cns), outcome, rows.String(), core.Escape(res.Stdout))
+	emit(c, "C08.cli", fullMode, b01(tips), rn.Dump(), core.Dumps(cns), outcome, rows.String(), core.Escape(res.Stdout), strconv.Itoa(cliThreads))
 }
 
 // `gotree compare edges -i ref -c comp`: one row per branch of the reference (brid, terminal,
@@ -1141,11 +1157,14 @@ func Run(c *core.Ctx) {
 			if g.Chance(0.3) {
 				alias(g, true, append([]*core.N{rn}, cns...)...)
 			}
+			cliThreads = []int{1, 1, 3}[g.Intn(3)]
 			if g.Chance(0.15) {
 				bad := cns[g.Intn(len(cns))]
 				leaves(bad)[0].Name = "zz_other"
+				cliThreads = 1 // which rows precede the error is only determined with one worker
 			}
 			doCLI(c, mode, tips, rn, cns)
+			cliThreads = 1
 		}
 		// compare edges / compare tips
 		m2 := c.Scale(24, 400)
